@@ -605,13 +605,20 @@ def run(tier):
     # ---- MC: the design as it is now must satisfy the property; the two earlier designs must be refuted (the I-spec predicts the defects)
     for cfg in ["MC_quick.cfg", "MC_data.cfg", "MC_solo_quick.cfg", "MC_solo_data.cfg"] + (["MC_data3.cfg"] if tier == "thorough" else []):
         m = tlc.mc("C18", "DbCache", cfg, coverage=(cfg == "MC_data.cfg"), heap="4g",
-                   require_actions=("Exists", "Load", "Decide", "RemoveStale", "RemoveBad2", "MergeLoad", "OpenTrunc", "Write2", "Release2", "Kill") if cfg == "MC_data.cfg" else ())
+                   require_actions=("Exists", "Load", "Decide", "RemoveStale", "RemoveBad2", "DirCheck", "MkDir", "MergeLoad", "OpenTrunc", "Write2", "Release2", "Kill") if cfg == "MC_data.cfg" else ())
         v.add_mc(m)
     for cfg in ("MC_asbuilt_eof.cfg", "MC_asbuilt_race.cfg"):
         m = tlc.run("C18", "DbCache", cfg, heap="4g")
         if m.violated != "NoFatal":
             raise Machinery(f"{cfg}: the I-spec no longer predicts the known defect (got {m.violated})")
-    v.extra["prediction"] = "as-built designs (EOFError uncaught; exists;remove race) are refuted by TLC (NoFatal), the repaired design passes"
+    # design variants that look harmless must be refuted as well: a stale file left for make_cache to "rewrite anyway" (its entries are merged back under a
+    # current fingerprint), and a cache folder created by check-then-create without exist_ok
+    for cfg, inv in (("MC_variant_keepstale.cfg", "NeverTrustStale"), ("MC_variant_mkdir.cfg", "NoFatal")):
+        m = tlc.run("C18", "DbCache", cfg, heap="4g")
+        if m.violated != inv:
+            raise Machinery(f"{cfg}: the I-spec does not refute the variant (got {m.violated}, expected {inv})")
+    v.extra["prediction"] = ("as-built designs (EOFError uncaught; exists;remove race) are refuted by TLC (NoFatal), the repaired design passes (incl. NeverTrustStale "
+                             "and a cache folder that is missing at the start); variants 'stale file not removed' and 'folder by check-then-create' are refuted")
 
     tmpl = Template(base)
     if tmpl.cached_digest != tmpl.truth:
